@@ -322,6 +322,73 @@ Section Laws.
       [|unfold W; zring].
     rewrite C2. unfold W. zring.
   Qed.
+
+  (* ---------- the code's outputs REPRESENT the affine tangent / chord point (no inverses):
+     repr (dec X) (dec Y) (dec Z) x y  means  X = x Z^2, Y = y Z^3 (mod p) ---------- *)
+  Definition jrepr (P : F * F * F) (x y : Z) : Prop :=
+    let '(X, Y, Zc) := P in ok X /\ ok Y /\ ok Zc /\ repr (dec X) (dec Y) (dec Zc) x y.
+
+  Theorem dbl_repr : forall X1 Y1 Z1 x y a x3 y3,
+    jrepr (X1, Y1, Z1) x y -> a == -3 ->
+    x3 * ((2 * y) * (2 * y)) == (3 * x * x + a) * (3 * x * x + a) - 2 * x * ((2 * y) * (2 * y)) ->
+    y3 * ((2 * y) * (2 * y) * (2 * y)) ==
+      (3 * x * x + a) * ((x - x3) * ((2 * y) * (2 * y))) - y * ((2 * y) * (2 * y) * (2 * y)) ->
+    jrepr (point_dbl F fo (X1, Y1, Z1)) x3 y3 /\
+    dec (snd (point_dbl F fo (X1, Y1, Z1))) == 2 * (y * (dec Z1 * dec Z1 * dec Z1)) * dec Z1.
+  Proof.
+    intros X1 Y1 Z1 x y a x3 y3 (OX & OY & OZ & Hr) Ha C1 C2.
+    pose proof (dbl_formula X1 Y1 Z1 OX OY OZ) as Hf.
+    destruct (point_dbl F fo (X1, Y1, Z1)) as [[X3 Y3] Z3]. cbv zeta in Hf.
+    destruct Hf as (O1 & O2 & O3 & EZ & EX & EY). cbn [snd]. split.
+    - cbn [jrepr]. repeat (split; [assumption|]).
+      eapply dbl_cross; eauto.
+    - rewrite EZ. destruct Hr as [_ HY]. rewrite HY. reflexivity.
+  Qed.
+
+  Theorem add_repr : forall X1 Y1 Z1 X2 Y2 Z2 x1 y1 x2 y2 x3 y3,
+    jrepr (X1, Y1, Z1) x1 y1 -> jrepr (X2, Y2, Z2) x2 y2 ->
+    f_eqb fo Z1 (f_zero fo) = false -> f_eqb fo Z2 (f_zero fo) = false ->
+    f_eqb fo (f_mul fo X1 (f_sqr fo Z2)) (f_mul fo X2 (f_sqr fo Z1)) = false ->
+    let d := x2 - x1 in let e := y2 - y1 in
+    x3 * (d * d) == e * e - (x1 + x2) * (d * d) ->
+    y3 * (d * d * d) == e * ((x1 - x3) * (d * d)) - y1 * (d * d * d) ->
+    jrepr (point_add F fo (X1, Y1, Z1) (X2, Y2, Z2)) x3 y3 /\
+    dec (snd (point_add F fo (X1, Y1, Z1) (X2, Y2, Z2))) == (x2 - x1) * (dec Z1 * dec Z2) * (dec Z1 * dec Z2) * (dec Z1 * dec Z2).
+  Proof.
+    intros X1 Y1 Z1 X2 Y2 Z2 x1 y1 x2 y2 x3 y3 (OX1 & OY1 & OZ1 & Hr1) (OX2 & OY2 & OZ2 & Hr2) Hz1 Hz2 Hne d e C1 C2.
+    pose proof (add_formula X1 Y1 Z1 X2 Y2 Z2 OX1 OY1 OZ1 OX2 OY2 OZ2 Hz1 Hz2 Hne) as Hf.
+    destruct (point_add F fo (X1, Y1, Z1) (X2, Y2, Z2)) as [[X3 Y3] Z3]. cbv zeta in Hf.
+    destruct Hf as (O1 & O2 & O3 & EZ & EX & EY). cbn [snd]. split.
+    - cbn [jrepr]. repeat (split; [assumption|]).
+      eapply (add_cross (dec X1) (dec Y1) (dec Z1) (dec X2) (dec Y2) (dec Z2) x1 y1 x2 y2 x3 y3); eauto.
+    - rewrite EZ. destruct Hr1 as [HX1 _]. destruct Hr2 as [HX2 _]. rewrite HX1, HX2. zring.
+  Qed.
+
+  (* mixed addition, straight-line part (H <> 0 or not needed: the identities hold regardless),
+     second operand affine: dec x2 = x2', dec y2 = y2' and Z2 = 1 *)
+  Theorem add_affine_old_repr : forall X1 Y1 Z1 xm ym x1 y1 x3 y3,
+    jrepr (X1, Y1, Z1) x1 y1 -> ok xm -> ok ym ->
+    f_eqb fo Z1 (f_zero fo) = false ->
+    f_eqb fo xm (f_zero fo) && f_eqb fo ym (f_zero fo) = false ->
+    let x2 := dec xm in let y2 := dec ym in
+    let d := x2 - x1 in let e := y2 - y1 in
+    x3 * (d * d) == e * e - (x1 + x2) * (d * d) ->
+    y3 * (d * d * d) == e * ((x1 - x3) * (d * d)) - y1 * (d * d * d) ->
+    jrepr (point_add_affine_old F fo (X1, Y1, Z1) (xm, ym)) x3 y3 /\
+    dec (snd (point_add_affine_old F fo (X1, Y1, Z1) (xm, ym))) == (dec xm - x1) * dec Z1 * dec Z1 * dec Z1.
+  Proof.
+    intros X1 Y1 Z1 xm ym x1 y1 x3 y3 (OX1 & OY1 & OZ1 & Hr1) Oxm Oym Hz1 Hz2 x2 y2 d e C1 C2.
+    pose proof (add_affine_formula X1 Y1 Z1 xm ym OX1 OY1 OZ1 Oxm Oym Hz1 Hz2) as Hf.
+    destruct (point_add_affine_old F fo (X1, Y1, Z1) (xm, ym)) as [[X3 Y3] Z3]. cbv zeta in Hf.
+    destruct Hf as (O1 & O2 & O3 & EZ & EX & EY). cbn [snd]. split.
+    - cbn [jrepr]. repeat (split; [assumption|]).
+      apply (add_cross (dec X1) (dec Y1) (dec Z1) (dec xm) (dec ym) 1 x1 y1 x2 y2 x3 y3); auto.
+      + split; unfold x2, y2; zring.
+      + rewrite EZ. zring.
+      + rewrite EX. zring.
+      + rewrite EY. zring.
+    - rewrite EZ. destruct Hr1 as [HX1 _]. rewrite HX1. zring.
+  Qed.
 End Laws.
 
 (* ---------- the affine law of CurveSpec satisfies the cross-multiplied characterisation as
@@ -463,6 +530,66 @@ Section Inst.
       split; [apply okp_mod|]. rewrite !decp_eqm. rewrite Zmod_eqm. unfold eqm; f_equal; ring.
   Qed.
 End Inst.
+
+(* ---------- the real code against CurveSpec: if the affine law yields (x3, y3) (and its Euclid
+   inverse is an inverse of the denominator -- true for prime p), the Jacobian code returns a
+   representative of (x3, y3) ---------- *)
+Section AgainstSpec.
+  Local Instance eqm_equiv3 : Equivalence (eqm c_p) := eqm_setoid c_p.
+  Notation jr := (jrepr c_p Z okp decp).
+  Lemma sm2_a_m3 : eqm c_p sm2_a (-3). Proof. vm_compute. reflexivity. Qed.
+
+  Theorem point_dbl_represents_pdbl_partial : forall X1 Y1 Z1 x y x3 y3,
+    jr (X1, Y1, Z1) x y ->
+    pdbl ZOps c_p sm2_a (Some (x, y)) = Some (x3, y3) ->
+    eqm c_p (finv ZOps c_p ((y + y) mod c_p) * (2 * y)) 1 ->
+    jr (point_dbl Z FpZ (X1, Y1, Z1)) x3 y3.
+  Proof.
+    intros X1 Y1 Z1 x y x3 y3 Hr Hp Hinv. rewrite pdbl_unfold in Hp.
+    remember (finv ZOps c_p ((y + y) mod c_p)) as inv eqn:Ei. clear Ei.
+    destruct (y =? 0); [discriminate|]. cbv zeta in Hp. injection Hp as E1 E2. subst x3 y3.
+    destruct (tangent_cross c_p sm2_a x y inv Hinv) as (C1 & C2).
+    exact (proj1 (dbl_repr c_p half_p half_p_ok Z FpZ okp decp FpZ_laws X1 Y1 Z1 x y sm2_a _ _ Hr sm2_a_m3 C1 C2)).
+  Qed.
+
+  Theorem point_add_represents_padd_partial : forall X1 Y1 Z1 X2 Y2 Z2 x1 y1 x2 y2 x3 y3,
+    jr (X1, Y1, Z1) x1 y1 -> jr (X2, Y2, Z2) x2 y2 ->
+    f_eqb FpZ Z1 (f_zero FpZ) = false -> f_eqb FpZ Z2 (f_zero FpZ) = false ->
+    f_eqb FpZ (f_mul FpZ X1 (f_sqr FpZ Z2)) (f_mul FpZ X2 (f_sqr FpZ Z1)) = false ->
+    x1 <> x2 ->
+    padd ZOps c_p sm2_a (Some (x1, y1)) (Some (x2, y2)) = Some (x3, y3) ->
+    eqm c_p (finv ZOps c_p ((x2 - x1) mod c_p) * (x2 - x1)) 1 ->
+    jr (point_add Z FpZ (X1, Y1, Z1) (X2, Y2, Z2)) x3 y3.
+  Proof.
+    intros X1 Y1 Z1 X2 Y2 Z2 x1 y1 x2 y2 x3 y3 Hr1 Hr2 Hz1 Hz2 Hne Hx Hp Hinv.
+    pose proof (eq_trans (eq_sym Hp) (padd_unfold c_p sm2_a x1 y1 x2 y2 Hx)) as Hq. clear Hp.
+    remember (finv ZOps c_p ((x2 - x1) mod c_p)) as inv eqn:Ei. clear Ei.
+    cbv zeta in Hq. injection Hq as E1 E2. subst x3 y3.
+    destruct (chord_cross c_p x1 y1 x2 y2 inv Hinv) as (C1 & C2).
+    exact (proj1 (add_repr c_p half_p Z FpZ okp decp FpZ_laws X1 Y1 Z1 X2 Y2 Z2 x1 y1 x2 y2 _ _ Hr1 Hr2 Hz1 Hz2 Hne C1 C2)).
+  Qed.
+
+  (* the mixed addition as it is, generic case H <> 0, both operands finite *)
+  Theorem point_add_affine_represents_padd_partial : forall X1 Y1 Z1 xm ym x1 y1 x3 y3,
+    jr (X1, Y1, Z1) x1 y1 -> okp xm -> okp ym ->
+    f_eqb FpZ Z1 (f_zero FpZ) = false ->
+    f_eqb FpZ xm (f_zero FpZ) && f_eqb FpZ ym (f_zero FpZ) = false ->
+    f_eqb FpZ (f_sub FpZ (f_mul FpZ xm (f_sqr FpZ Z1)) X1) (f_zero FpZ) = false ->
+    x1 <> decp xm ->
+    padd ZOps c_p sm2_a (Some (x1, y1)) (Some (decp xm, decp ym)) = Some (x3, y3) ->
+    eqm c_p (finv ZOps c_p ((decp xm - x1) mod c_p) * (decp xm - x1)) 1 ->
+    jr (point_add_affine Z FpZ (X1, Y1, Z1) (xm, ym)) x3 y3.
+  Proof.
+    intros X1 Y1 Z1 xm ym x1 y1 x3 y3 Hr1 Ox Oy Hz1 Hz2 HH Hx Hp Hinv.
+    rewrite (add_affine_generic Z FpZ X1 Y1 Z1 xm ym HH).
+    pose proof (eq_trans (eq_sym Hp) (padd_unfold c_p sm2_a x1 y1 (decp xm) (decp ym) Hx)) as Hq. clear Hp.
+    remember (finv ZOps c_p ((decp xm - x1) mod c_p)) as inv eqn:Ei. clear Ei.
+    cbv zeta in Hq. injection Hq as E1 E2. subst x3 y3.
+    destruct (chord_cross c_p x1 y1 (decp xm) (decp ym) inv Hinv) as (C1 & C2).
+    exact (proj1 (add_affine_old_repr c_p half_p Z FpZ okp decp FpZ_laws X1 Y1 Z1 xm ym x1 y1 _ _ Hr1 Ox Oy Hz1 Hz2 C1 C2)).
+  Qed.
+  (* ... and in its equal-x branch with R = 0 it is the doubling (previous theorem applies) *)
+End AgainstSpec.
 
 (* ---------- the defect of the straight-line mixed addition on equal inputs (the whole of
    sm2_z256_point_add_affine before the repair): for P = G (Jacobian, Z = mont(1)) and the
